@@ -21,6 +21,8 @@ PROFILES_QUICK = [
     {"cluster_size": 65536, "full": True, "sel": 3},
     {"cluster_size": 126 * 512, "full": True, "sel": 3},   # 63-sector tracks x 2: not a power of two
     {"cluster_size": 4096, "full": True, "sel": 3, "v1_unused": 0x1FF, "when": lambda img: img["ver"] == 1},  # garbage in the unused dword after the v1 size
+    {"cluster_size": 512, "full": False, "sel": 4, "pos_shift": 0x80000000},   # table entries with the top bit set (1 TiB and more into the file)
+    {"cluster_size": 4096, "full": False, "sel": 4, "pos_shift": 0xFFFF0000 // 8, "when": lambda img: img["ver"] == 1},
 ]
 PROFILES_THOROUGH = PROFILES_QUICK + [
     {"cluster_size": 8 << 20, "full": False, "sel": 6},
@@ -46,12 +48,12 @@ def build(img, prof, P=None, size_bytes=None):
         return None
     # header + BAT must fit below the first possible position
     vf, info = enc_hds.build(img, cluster_size=cs, P=P if P is not None else img["n"] + 1, size_bytes=size_bytes,
-                             hdr_kw={"v1_unused": prof.get("v1_unused", 0)})
+                             hdr_kw={"v1_unused": prof.get("v1_unused", 0)}, pos_shift=prof.get("pos_shift", 0))
     parent = None
     if img["parent"]:
         psize = info["size"]
         parent = lambda: disk.ParentStream(psize)  # noqa: E731  (HDS reads its parent through seek/read)
-    return disk.Built(open=lambda: _open(vf, parent), cell=info["cell"], size=info["size"], bases={0: 0}, files=[vf],
+    return disk.Built(open=lambda: _open(vf, parent), cell=info["cell"], size=info["size"], bases={0: info["base"]}, files=[vf],
                       has_parent=bool(img["parent"]), note={k: v for k, v in prof.items() if k != "when"})
 
 
@@ -209,8 +211,16 @@ def run(ctx):
                            attrs_of=_attrs, cap=80 if thorough else 48)
     check_via_hdd(ctx, sts, rng, 120 if thorough else 24)
     plain_container_content(ctx, rng)
-    diskprop.traces(ctx, "hds", lambda tid, r: make_trace(tid, r, 40 if thorough else 25, many=("mid" if tid % 8 == 0 else None)), 400 if thorough else 64,
-                    "TraceDisk", "TraceDisk.cfg", lambda t: {"format": "hds", "ver": t["img"]["ver"], "parent": t["img"]["parent"]})
+    import importlib
+    c10 = importlib.import_module("props.c10")
+
+    def mk(tid, r):
+        if tid % 6 == 0:   # a Parallels disk split over several storages (expanding and plain images side by side)
+            return c10.make_trace_hdd(tid, r, 40 if thorough else 25)
+        return make_trace(tid, r, 40 if thorough else 25, many=("mid" if tid % 8 == 0 else None))
+
+    diskprop.traces(ctx, "hds", mk, 400 if thorough else 72, "TraceDisk", "TraceDisk.cfg",
+                    lambda t: {"format": "hds", "ver": t["img"]["ver"] if "img" in t else 0, "parent": t["img"]["parent"] if "img" in t else False, "split": "exts" in t})
 
 
 def replay(ctx, body):
